@@ -61,17 +61,23 @@ fn doc_text(t: &mut Tape, exports: &[(usize, Vec<usize>)], long: bool) -> (Strin
       s.push_str(comment(t));
     }
     let module = LIBS[*li].join(".");
+    // what follows the import on its own line: nothing, a comment that ends on the line, a block
+    // comment that continues onto the next lines, or the next import / the first class
+    let tail = ["\n", " // trailing line comment\n", " /* trailing */\n", " /* a trailing block comment\n   that continues below */\n", " "][t.weighted(&[8, 1, 1, 2, 1])];
     match t.weighted(&[5, 2, 2, 1]) {
-      0 => s.push_str(&format!("import {{ {} }} from {module};\n", names.join(", "))),
-      1 => s.push_str(&format!("import {{\n  {}\n}} from {module};\n", names.join(",\n  "))),
-      2 => s.push_str(&format!("import {{ {} }} from {module}\n", names.join(", "))),
-      _ => s.push_str(&format!("import {{{}}} from   {module} ;\n\n\n", names.join(","))),
+      0 => s.push_str(&format!("import {{ {} }} from {module};{tail}", names.join(", "))),
+      1 => s.push_str(&format!("import {{\n  {}\n}} from {module};{tail}", names.join(",\n  "))),
+      2 => s.push_str(&format!("import {{ {} }} from {module}{tail}", names.join(", "))),
+      _ => s.push_str(&format!("import {{{}}} from   {module} ;{tail}\n\n", names.join(","))),
     }
   }
   if t.bool(1, 4) {
     s.push_str(comment(t));
   }
-  s.push('\n');
+  // (when the last import did not end its line, the first class starts on that line)
+  if !s.ends_with(' ') {
+    s.push('\n');
+  }
   // classes
   let all: Vec<usize> = exports.iter().flat_map(|(_, c)| c.iter().copied()).collect();
   let mut unresolved = vec![];
@@ -153,7 +159,7 @@ impl Prop for C16 {
     "C16"
   }
   fn rule(&self) -> String {
-    "workspaces of 2-4 library modules (dotted and long names) exporting 1-3 classes each (a class name may be exported by two modules) and a document with 0-4 existing imports in any order and layout (one line, one member per line, without semicolon, odd spacing), comments (line / block / doc / multi-line) before, between and after the imports, and 1-2 classes using imported classes and 1-3 classes that are exported elsewhere but not imported; 0-2 earlier edits of the document and the libraries precede the request; for every `Cannot resolve class` diagnostic every auto-import quick fix (code_actions at the diagnostic's location) and, at a class-name position, every completion item with additional edits is applied to the text; oracle: edit ranges lie inside the document, do not overlap and do not split characters; the new text has no syntax error; its imports are the old ones plus the named (module, class); its classes have the same canonical AST; its comments are the same multiset; after sending the new text to the server the class is no longer reported as unresolved and no new diagnostic appears; non-trivial = the document has >=1 existing import and >=1 comment in the import section, or >=2 candidate quick fixes; distinct = hash of the workspace".into()
+    "workspaces of 2-4 library modules (dotted and long names) exporting 1-3 classes each (a class name may be exported by two modules) and a document with 0-4 existing imports in any order and layout (one line, one member per line, without semicolon, odd spacing; followed on the same line by nothing, a line comment, a one-line block comment, a block comment that continues on the next line, or the next import / the first class), comments (line / block / doc / multi-line) before, between and after the imports, and 1-2 classes using imported classes and 1-3 classes that are exported elsewhere but not imported; 0-2 earlier edits of the document and the libraries precede the request; for every `Cannot resolve class` diagnostic every auto-import quick fix (code_actions at the diagnostic's location) and, at a class-name position, every completion item with additional edits is applied to the text; oracle: edit ranges lie inside the document, do not overlap and do not split characters; the new text has no syntax error; its imports are the old ones plus the named (module, class); its classes have the same canonical AST; its comments are the same multiset; after sending the new text to the server the class is no longer reported as unresolved and no new diagnostic appears; non-trivial = the document has >=1 existing import and >=1 comment in the import section, or >=2 candidate quick fixes; distinct = hash of the workspace".into()
   }
   fn assumptions(&self) -> Vec<String> {
     vec![
